@@ -94,7 +94,7 @@ PROPS["C18"] = {
     "streams": lambda seed, tier: [
         {"cfg": c, "name": g, "kind": "pair", "lines": alias_pairs(gen(g, seed, n if tier == "quick" else 4 * n, tier))}
         for c in cfgs(tier, ["asm", "portable64"], ["asm", "asm+nobmi2", "asm-O0", "portable64", "portable64-O0", "portable32", "portable32-O0"])
-        for (g, n) in (("bigint", 4), ("fp", 6), ("tower", 8), ("curve", 6), ("scalar", 4), ("gt", 8), ("pairing", 3))],
+        for (g, n) in (("bigint", 4), ("fp", 6), ("tower", 8), ("curve", 6), ("scalar", 4), ("gt", 8), ("pairing", 3), ("encoding", 4))],
     "known_explains_broken": lambda undischarged, known: all(
         any(re.search(r"Fq6\.multiply_o(b|ab)_alias", o["name"]) for _ in [0]) for o in undischarged),
     "rule": "pairs of operation lines (all objects distinct / output aliased to inputs) on identical operands; the two raw results must be identical; distinct = distinct op lines",
@@ -293,6 +293,7 @@ for _pid, _mod, _ns in (("C17", "JediVerif.Properties.GoBindings", "Jedi.GoB"), 
     _P["translators"] = list(_P.get("translators", [])) + ["go2lean"]
     _P["lean_targets"] = list(_P.get("lean_targets", [])) + [_mod]
     _P["theorems"] = (lambda _old=_P["theorems"], _m=_mod, _n=_ns: _old() + module_theorems(_m, _n))
+PROPS["C19"]["translators"] = list(PROPS["C19"]["translators"]) + ["syms2lean"]     # GoView.c_declarations_defined_* use the linked-symbol tables
 PROPS["C17"]["search"] = go_search
 PROPS["C17"]["trusted_extra"] = list(PROPS["C17"].get("trusted_extra", [])) + [
     "translate/go2lean.py + goparse.py: the reading of the Go subset (the Go layer cannot be executed here, so this translator is not validated by running; it refuses constructs it does not know)",
